@@ -301,6 +301,17 @@ def correspondence(ctx, model_ok=True):
         if not _c06.meets(o, exp):
             failures.append({"what": "a variable access does not reach the variable the source names (%s): expected %s, observed %s" % (name, str(exp)[:200], str(o)[:200]),
                              "program": src, "name": name, "signature": "variable access " + name.split(":")[0].split("/")[0], "failing_input": True})
+    # ... and the implicit names `self`, `super`, `Self`: which slot / captured variable / class they compile to, in methods, static methods,
+    # constructors, and functions, lambdas and classes nested in them (the class scenarios with their expected output)
+    from props import c07 as _c07
+    cres, _ = progs.run_programs(ctx.runner, [(n, src, {}) for n, src, _ in _c07.SCENARIOS], {"gc": "default"}, tag="j")
+    for (name, src, exp), r in zip(_c07.SCENARIOS, cres):
+        o = progs.canon_step(r)
+        if o[0] != "ok" or list(o[2]) != list(exp):
+            k = next((i for i, (x, y) in enumerate(zip(list(o[2]) if len(o) > 2 else [], exp)) if x != y), min(len(o[2]) if len(o) > 2 else 0, len(exp)))
+            failures.append({"what": "an implicit receiver / class name compiles to the wrong variable (class scenario %s, line %d: %s, expected %s; %s %s)" % (
+                name, k, list(o[2])[k:k + 1] if len(o) > 2 else o, list(exp)[k:k + 1], o[0], list(o[3])[:1] if len(o) > 3 else ""),
+                "program": src, "name": name, "expected": list(exp), "signature": "implicit receiver " + name, "failing_input": True})
     # limit programs: must be a compile error or run to "done"
     for (name, src, mods), r in zip(allp, res):
         if not name.startswith("limit:") or not isinstance(r, dict):
